@@ -384,6 +384,10 @@ func (r *Run) compose(g *kit.Gor, call *UpCall, req *http.Request, res, planIdx 
 		h[ck] = append(h[ck], v)
 	}
 	add("X-Sim-Seq", strconv.Itoa(sid))
+	if status != 304 {
+		// identifies the representation; a 304 never carries it, so it survives freshening
+		add("X-Sim-Body", strconv.Itoa(sid))
+	}
 	dateT := now
 	switch plan.DateMode {
 	case "skew":
